@@ -9,8 +9,13 @@ open Gonuts.Model.Mint
 
 /-! ## Strings -/
 
-theorem key_toList (r : Request) : r.key.toList = r.method.toList ++ r.url.toList ++ r.body.toList := by
-  simp [Request.key, String.toList_append]
+def nul : Char := Char.ofNat 0
+
+theorem keySep_toList : keySep.toList = [nul] := by decide
+
+theorem key_toList (r : Request) :
+    r.key.toList = r.method.toList ++ nul :: (r.url.toList ++ nul :: r.body.toList) := by
+  simp [Request.key, String.toList_append, keySep_toList]
 
 /-- A string that contains `/` differs from a string that does not. -/
 theorem ne_of_slash {a b : String} (ha : '/' ∈ a.toList) (hb : '/' ∉ b.toList) : a ≠ b := by
@@ -20,15 +25,34 @@ theorem ne_of_slash {a b : String} (ha : '/' ∈ a.toList) (hb : '/' ∉ b.toLis
 theorem key_has_slash (r : Request) (h : '/' ∈ r.url.toList) : '/' ∈ r.key.toList := by
   rw [key_toList]; simp [h]
 
-/-- `method ++ url ++ body` determines `url` and `body` once the method and the URL's length are known. -/
-theorem key_split {m u₁ b₁ u₂ b₂ : String} (h : m ++ u₁ ++ b₁ = m ++ u₂ ++ b₂) (hl : u₁.length = u₂.length) :
-    u₁ = u₂ ∧ b₁ = b₂ := by
+/-- Splitting at the first occurrence of a separator is unique. -/
+theorem split_at_sep {α : Type} {c : α} : ∀ {a b x y : List α}, c ∉ a → c ∉ b → a ++ c :: x = b ++ c :: y → a = b ∧ x = y
+  | [], [], _, _, _, _, h => by simpa using h
+  | [], d :: b, _, _, _, hb, h => by
+    simp only [List.nil_append, List.cons_append, List.cons.injEq] at h
+    exact absurd (h.1 ▸ List.mem_cons_self ..) hb
+  | d :: a, [], _, _, ha, _, h => by
+    simp only [List.nil_append, List.cons_append, List.cons.injEq] at h
+    exact absurd (h.1 ▸ List.mem_cons_self ..) ha
+  | d :: a, e :: b, x, y, ha, hb, h => by
+    simp only [List.cons_append, List.cons.injEq] at h
+    obtain ⟨h1, h2⟩ := split_at_sep (a := a) (b := b) (fun hm => ha (List.mem_cons_of_mem _ hm))
+      (fun hm => hb (List.mem_cons_of_mem _ hm)) h.2
+    exact ⟨by rw [h.1, h1], h2⟩
+
+/-- Method and URL of a request never contain a NUL byte (net/http rejects control characters in the request line). -/
+structure NoNul (r : Request) : Prop where
+  method : nul ∉ r.method.toList
+  url : nul ∉ r.url.toList
+
+/-- The key (fix 65f9524: NUL separators) determines method, URL and body. -/
+theorem key_inj {r₁ r₂ : Request} (h₁ : NoNul r₁) (h₂ : NoNul r₂) (h : r₁.key = r₂.key) :
+    r₁.method = r₂.method ∧ r₁.url = r₂.url ∧ r₁.body = r₂.body := by
   have h' := congrArg String.toList h
-  simp only [String.toList_append, List.append_assoc] at h'
-  have h'' := List.append_cancel_left h'
-  have hl' : u₁.toList.length = u₂.toList.length := by rw [String.length_toList, String.length_toList]; exact hl
-  obtain ⟨hu, hb⟩ := List.append_inj h'' hl'
-  exact ⟨String.toList_inj.mp hu, String.toList_inj.mp hb⟩
+  rw [key_toList, key_toList] at h'
+  obtain ⟨hm, hrest⟩ := split_at_sep h₁.method h₂.method h'
+  obtain ⟨hu, hb⟩ := split_at_sep h₁.url h₂.url hrest
+  exact ⟨String.toList_inj.mp hm, String.toList_inj.mp hu, String.toList_inj.mp hb⟩
 
 /-! ## The cache as a finite map -/
 
@@ -580,6 +604,24 @@ theorem runLog_append (s : WSess) (a b : List Event) :
   induction a generalizing s with
   | nil => simp [runLog]
   | cons e rest ih => simp [runLog, ih, List.append_assoc]
+
+/-- Every log entry is the answer to a request event of the history. -/
+theorem runLog_mem {s : WSess} {evs : List Event} {x : LogEntry} (h : x ∈ (runLog s evs).2) : Event.req x.req ∈ evs := by
+  induction evs generalizing s with
+  | nil => simp [runLog] at h
+  | cons e rest ih =>
+    simp only [runLog, List.mem_append] at h
+    rcases h with h | h
+    · cases e with
+      | req r =>
+        simp only [stepLog, List.mem_singleton] at h
+        subst h
+        exact List.mem_cons_self ..
+      | advance dt => simp [stepLog] at h
+      | tick stale => simp [stepLog] at h
+      | mintOp op => simp [stepLog] at h
+      | restart rotate fee => simp [stepLog] at h
+    · exact List.mem_cons_of_mem _ (ih h)
 
 /-- Every request of the history is well formed (what net/http and mux guarantee). -/
 def EventsWF (evs : List Event) : Prop := ∀ r, Event.req r ∈ evs → ReqWF r
